@@ -72,7 +72,7 @@ class TokenModel:
         self.unmodelled = []
         for j, (name, pat) in enumerate(self.rules):
             try:
-                n = resolve_boundaries(regex_nfa(pat, flags, A), A, prefix=True)
+                n = resolve_boundaries(regex_nfa(pat, flags, A), A, prefix=True, flags=flags)
             except FstError as e:
                 self.unmodelled.append((name, str(e)))
                 continue
@@ -298,3 +298,89 @@ def guard_dfa(test, var, resolve, A):
         R = _words(A, sorted(coll), fold)
         return R.complement() if isinstance(test.ops[0], ast.NotIn) else R
     raise FstError(f'expression outside the guard fragment: {ast.unparse(test)[:60]}')
+
+
+# ------------------------------------------------------------------ guards by symbolic execution (robust to refactoring of the printer)
+def symbolic_quoting(modname, qual, make_receiver, A, quote='`'):
+    """Runs the real printer `qual` (a method printing a list of string parts) on ONE symbolic part and classifies every path by its output:
+    'bare' (the part itself), 'quoted' (quote + part + quote) or 'other'. Facts the printer tests about the part (regex matches, membership of the
+    part / its upper- or lower-cased form in a set of words, str predicates) are opaque atoms; a path is the conjunction of atoms / negated atoms.
+    Returns {'bare': Dfa, 'quoted': Dfa, 'other': Dfa} over the alphabet A. Raises FstError when a path depends on anything else."""
+    import z3
+    from vlib import pysym
+    from vlib.pysym.values import mk_str, SymVal
+    ex = pysym.Executor()
+    ex.atoms = {}
+    part = mk_str('part')
+    paths = []
+
+    def make_args(ex_):
+        return make_receiver(ex_, part)
+
+    def post(ex_, o):
+        if o.kind != 'return':
+            paths.append(('raise:' + getattr(o.value, '__name__', str(o.value)), list(o.pc)))
+            return None
+        v = o.value
+        vt = v.t if isinstance(v, SymVal) else (z3.StringVal(v) if isinstance(v, str) else None)
+        kind = 'other'
+        if vt is not None:
+            if ex_.valid(vt == part.t, pc=o.pc)[0]:
+                kind = 'bare'
+            elif ex_.valid(vt == z3.Concat(z3.StringVal(quote), part.t, z3.StringVal(quote)), pc=o.pc)[0]:
+                kind = 'quoted'
+        paths.append((kind, list(o.pc)))
+        return None
+    v = pysym.verify(modname, qual, make_args, post, ex=ex)
+    if v.status != 'proved' and str(v.status).lower() != 'proved':
+        raise FstError(f'printer outside the engine\'s reach: {v.detail}')
+    atom_by_id = {b.get_id(): (desc, arg) for (desc, arg, b) in ex.atoms.values()}
+
+    def atom_dfa(desc, arg):
+        base, fold = arg.t, None
+        if base.decl().name().startswith('str.upper') or base.decl().name().startswith('str.lower'):
+            fold = 'upper' if 'upper' in base.decl().name() else 'lower'
+            base = base.arg(0)
+        if not base.eq(part.t):
+            raise FstError(f'fact about {arg.t} (not the part itself)')
+        if desc[0] == 'regex':
+            if fold:
+                raise FstError('regex on a case-folded part')
+            return regex_dfa(desc[1], desc[2] & ~re.UNICODE, A, prefix=(desc[3] == 'match'))
+        if desc[0] == 'member':
+            return _words(A, sorted(desc[1]), fold)
+        if desc[0] == 'strpred':
+            if fold:
+                raise FstError('str predicate on a case-folded part')
+            t = ast.parse(f'part.{desc[1]}()', mode='eval').body
+            return guard_dfa(t, 'part', None, A)
+        raise FstError(f'atom {desc}')
+    cache = {}
+    out = {'bare': Dfa(A, [{}], 0, set()), 'quoted': Dfa(A, [{}], 0, set()), 'other': Dfa(A, [{}], 0, set())}
+    def to_dfa(e):
+        if e.get_id() in atom_by_id:
+            if e.get_id() not in cache:
+                cache[e.get_id()] = atom_dfa(*atom_by_id[e.get_id()])
+            return cache[e.get_id()]
+        if z3.is_not(e):
+            return to_dfa(e.arg(0)).complement()
+        if z3.is_and(e) or z3.is_or(e):
+            ds = [to_dfa(c) for c in e.children()]
+            r = ds[0]
+            for d in ds[1:]:
+                r = r.intersect(d) if z3.is_and(e) else r.union(d)
+            return r
+        if z3.is_true(e):
+            return Dfa.star_any(A)
+        if z3.is_false(e):
+            return Dfa(A, [{}], 0, set())
+        if 'str.upper' in e.sexpr() or 'str.lower' in e.sexpr():
+            return Dfa.star_any(A)          # axioms about the uninterpreted case-folding functions
+        raise FstError(f'path condition outside the atom fragment: {e}')
+    for kind, pc in paths:
+        lang = Dfa.star_any(A)
+        for e in pc:
+            lang = lang.intersect(to_dfa(z3.simplify(e)))
+        k2 = kind if kind in out else 'other'
+        out[k2] = out[k2].union(lang)
+    return out
